@@ -3,6 +3,7 @@ package server
 import (
 	"context"
 	"errors"
+	"sync"
 
 	"github.com/feichai0017/NoKV/manifest"
 	"github.com/feichai0017/NoKV/pb"
@@ -21,6 +22,11 @@ type Service struct {
 	ids     *core.IDAllocator
 	tso     *tso.Allocator
 	storage pdstorage.Store
+
+	// persistMu serializes allocator checkpoint writes: the counters are read
+	// and saved under one lock so that a stale snapshot can never overwrite a
+	// newer checkpoint (which would let a restart hand out values twice).
+	persistMu sync.Mutex
 }
 
 // NewService constructs a PD-lite service.
@@ -188,6 +194,8 @@ func (s *Service) persistAllocatorState() error {
 	if s == nil || s.storage == nil {
 		return nil
 	}
+	s.persistMu.Lock()
+	defer s.persistMu.Unlock()
 	return s.storage.SaveAllocatorState(s.ids.Current(), s.tso.Current())
 }
 
